@@ -234,6 +234,9 @@ func OrmDeletes(table string) int { return native().Writes("deletes:" + table) }
 // otherwise arbitrary (for example: every possible hash function).
 func UFStub(name string) interface{} { return native3().Recorder("uf:" + name) }
 
-// AssumeLoopBound states that no loop of the code under test iterates more than n times
-// in the states considered (an assumption on the pre-state, counted in the evidence).
-func AssumeLoopBound(n int) {}
+// AssumeLoopBound states that no loop of the named function of the code under test
+// iterates more than n times in the states considered (an assumption on the pre-state,
+// counted in the evidence).
+func AssumeLoopBound(fn string, n int) {}
+
+// QIsInt, DecPlain etc. are defined in native.go.
